@@ -4,7 +4,40 @@
 // executes stick on a serialised case and returns an observation.
 package sb
 
-import "encoding/json"
+import (
+	"encoding/base64"
+	"encoding/json"
+	"unicode/utf8"
+)
+
+// BS is a byte string that survives JSON (replay files): valid UTF-8 is
+// written as a plain JSON string, anything else as {"b64": "..."}.
+type BS string
+
+func (b BS) MarshalJSON() ([]byte, error) {
+	if utf8.ValidString(string(b)) {
+		return json.Marshal(string(b))
+	}
+	return json.Marshal(map[string]string{"b64": base64.StdEncoding.EncodeToString([]byte(b))})
+}
+
+func (b *BS) UnmarshalJSON(data []byte) error {
+	var s string
+	if err := json.Unmarshal(data, &s); err == nil {
+		*b = BS(s)
+		return nil
+	}
+	var m map[string]string
+	if err := json.Unmarshal(data, &m); err != nil {
+		return err
+	}
+	raw, err := base64.StdEncoding.DecodeString(m["b64"])
+	if err != nil {
+		return err
+	}
+	*b = BS(raw)
+	return nil
+}
 
 // V is a serialisable description of a Go value handed to stick as context
 // data (and of values observed in callbacks). K selects the Go kind.
@@ -129,7 +162,6 @@ type Resp struct {
 	NLoads          int `json:"nl,omitempty"`
 
 	Strs []string          `json:"strs,omitempty"`
-	Vals []json.RawMessage `json:"vals,omitempty"`
 	Subs []SubResp         `json:"subs,omitempty"`
 	Subs2 []SubResp        `json:"subs2,omitempty"`
 
